@@ -15,6 +15,7 @@ import (
 	"strings"
 
 	"github.com/jig/lisp"
+	"github.com/jig/lisp/command"
 	"github.com/jig/lisp/lib/core/nscore"
 	. "github.com/jig/lisp/types"
 )
@@ -333,6 +334,25 @@ func (e *routesEngine) run(payload string) string {
 			return err
 		}},
 	}
+	routes = append(routes, struct {
+		name string
+		run  func(env EnvType) error
+	}{"command.ExecuteFile", func(env EnvType) error {
+		// the command line's way of running a script file
+		dir := filepath.Join(os.TempDir(), "verif-routes")
+		if d := os.Getenv("VERIF_SCRATCH"); d != "" {
+			dir = d
+		}
+		os.MkdirAll(dir, 0o755)
+		e.n++
+		path := filepath.Join(dir, fmt.Sprintf("script-%d-%d.lisp", os.Getpid(), e.n))
+		if err := os.WriteFile(path, []byte(strings.Join(forms, between)+ending), 0o644); err != nil {
+			return err
+		}
+		defer os.Remove(path)
+		_, err := command.ExecuteFile(path, env)
+		return err
+	}})
 	first := ""
 	var why []string
 	for i, rt := range routes {
